@@ -19,7 +19,7 @@ def all_bases():
 
 
 SMALL = ["basic_experiment", "salt", "splitters", "splitter_test", "conditional_test_1", "unroutable_conditional",
-         "readme_cond", "all_productions", "comments", "integer_splitting_field", "polymorphic_return", "readme_complete"]  # fmt: skip
+         "readme_cond", "all_productions", "comments", "integer_splitting_field", "polymorphic_return", "readme_complete", "underscore_names"]  # fmt: skip
 
 
 def lexemes(text):
